@@ -326,6 +326,13 @@ def _run_e1c(prog, rep):
                 stats["finite-iterator"] += 1
                 rep.ok("E1.c", key, where, "every cycle replaces the walked value by a proper part of itself (finite owned structure)")
                 continue
+            # (3c) counted loops: `while i < bound { …; i += k }` — a usize counter whose only update in the loop adds a positive constant,
+            #      on every cycle, and the loop is left when the counter reaches a bound that does not change inside the loop
+            counted = _counted_loop(f, body, tr, header, blocks)
+            if counted:
+                stats["finite-iterator"] += 1
+                rep.ok("E1.c", key, where, counted)
+                continue
             # (3b) ancestor walks: every cycle steps to tree_sitter::Node::parent()
             par = set()
             for b in blocks:
@@ -367,6 +374,63 @@ def _run_e1c(prog, rep):
             stats["other"] += 1
             rep.violation("E1.c", key, where, "loop whose progress is not established by any rule")
     return n_loops, stats, mc
+
+
+def _counted_loop(f, body, tr, header, blocks):
+    from ..lib.cfgq import switch_edges
+    from ..lib.trace import canon
+    defs = body.defs()
+    for l, dl in sorted(defs.items()):
+        inside = [d for d in dl if d[0] is not None and d[0] in blocks and d[2] == "assign"]
+        outside = [d for d in dl if d[0] is not None and d[0] not in blocks]
+        if not inside or not outside or any(d[0] in blocks and d[2] != "assign" for d in dl if d[0] is not None):
+            continue
+        incs = set()
+        ok = True
+        for (b, idx, kind, rv) in inside:
+            try:
+                e = strip(tr.rvalue(rv))
+            except Exception:
+                ok = False
+                break
+            c = canon(e)
+            m = re.match(r"^\((.*) AddWithOverflow ([1-9]\d*)_u(size|32|64)\)\.0$", c)
+            if not m or not (m.group(1) == "rec" or (m.group(1).startswith("phi(") and "rec" in m.group(1))):
+                ok = False
+                break
+            incs.add(b)
+        if not ok or not incs or cycle_avoiding(body, header, blocks, incs):
+            continue
+        # the exit test: counter against a loop-invariant bound
+        for b in sorted(blocks):
+            for g in switch_edges(body, tr, b):
+                if g.dst in blocks:
+                    continue
+                c = strip(g.cond)
+                if c[0] != "binop" or c[1] not in ("Lt", "Le", "Gt", "Ge"):
+                    continue
+                x, y = canon(c[2]), canon(c[3])
+                cnt_left = x.startswith("phi(") and "rec AddWithOverflow" in x
+                cnt_right = y.startswith("phi(") and "rec AddWithOverflow" in y
+                if cnt_left == cnt_right:
+                    continue
+                bound = y if cnt_left else x
+                if "rec" in bound or "phi(" in bound:
+                    continue
+                # exit when counter >= bound
+                exits_when_reached = (cnt_left and ((c[1] in ("Lt", "Le") and g.value is False) or (c[1] in ("Ge", "Gt") and g.value is True))) or \
+                    (cnt_right and ((c[1] in ("Gt", "Ge") and g.value is False) or (c[1] in ("Le", "Lt") and g.value is True)))
+                if not exits_when_reached:
+                    continue
+                # a bound of the form len(X): X must not grow inside the loop
+                m = re.match(r"^\w+::len\(&\*?(.*)\)$", bound)
+                if m:
+                    grown = [bb for bb in blocks if body.term(bb)["k"] == "call" and is_callee(body.term(bb), r"::(push|push_back|insert|extend|append|extend_from_slice|resize)$")
+                             and canon(strip(tr.operand(body.term(bb)["args"][0]))).lstrip("&*") == m.group(1).lstrip("&*")]
+                    if grown:
+                        continue
+                return "counted loop: the counter grows by a positive constant on every cycle and the loop is left when it reaches %s" % bound[:80]
+    return None
 
 
 def _loop_where(body, header):
